@@ -919,7 +919,7 @@ impl Check for C08 {
         "C08"
     }
     fn rule(&self) -> String {
-        "orderDsl programs with up to 7 orders (await order, kept order results, await of kept promises, Promise.all / Promise.race over kept host promises, explicit __cancelOrder__ of issued orders, statements inside async callees; unique payloads) x tape-driven host schedules (answer with value / error / pending plain or order-linked promise; settle promises in any order and batch; answer unknown ids; duplicate answers; idle steps; forced collections). An executable reference model (order ledger + host promises + combinator semantics) runs in lockstep: per Suspended it predicts the newly issued orders and whether the program may be blocked; at the end the log, the required and permitted cancellations. non-trivial = at least two orders or a cancellation crossed the transport; distinct = distinct (program text, event trace)".into()
+        "orderDsl programs with up to 7 orders (await order, kept order results, await of kept promises, Promise.all / Promise.race over kept host promises, explicit __cancelOrder__ of issued orders, statements inside async callees; unique payloads) x tape-driven host schedules (answer with value / error / pending plain or order-linked promise; settle promises in any order and batch; answer unknown ids; duplicate answers; idle steps; forced collections). An executable reference model (order ledger + host promises + combinator semantics) runs in lockstep: per Suspended it predicts the newly issued orders and whether the program may be blocked; at the end the log, the required and permitted cancellations. non-trivial = at least two orders or a cancellation crossed the transport; distinct = distinct (program text, event trace). Batch statements: orders issued through a native ([..].map(order)), markers awaited later in any order (each once), answers in any order, also as the last statement with nobody awaiting them (run ends Suspended then Done). Strict rule: a Suspended with no unanswered order and no unsettled host promise is a violation at once. The host keeps every order payload and re-reads all of them at each later report and at Complete".into()
     }
     fn components(&self) -> Value {
         json!({"real": ["Interpreter step/fulfill_orders", "order ledger (pending/cancelled/responses)", "wait graph", "promise builtins incl. all/race", "api::create_promise/create_order_promise/resolve/reject", "tsrun:host module"],
